@@ -3,7 +3,7 @@ import ast
 
 from ..engine import sym
 from ..engine.interp import Unsupported, Rec, ClassVal, PyFn, Raised, ExcVal, Env
-from ..engine.loader import Unknown, norm_text, walk_local, FUNC_TYPES
+from ..engine.loader import Unknown, norm_text, walk_local, FUNC_TYPES, public_qual
 from ..rules import guards
 from ..rules.world import eager_interp
 from . import c02
@@ -418,18 +418,29 @@ def rule_R8(ck):
     """diagnostics and the image never share a stream"""
     repo = ck.repo
     n = 0
-    for h in ("BareHandler", "GraphicalHandler", "FilterHandler"):
-        q = f"reports::{h}.__call__"
-        fn = repo.func(q)
-        for c in ast.walk(fn):
+    # the handlers' __call__ methods and whatever helpers of the reports module print on their behalf
+    for q, fn in repo.all_functions():
+        if q.split("::")[0] != "reports" or isinstance(fn, ast.Lambda) or "<locals>" in q:
+            continue
+        h = q.split("::")[1].split(".")[0]
+        for c in walk_local(fn):
             if isinstance(c, ast.Call) and isinstance(c.func, ast.Name) and c.func.id == "print":
                 n += 1
                 file_kw = [k for k in c.keywords if k.arg == "file"]
                 to_err = file_kw and norm_text(file_kw[0].value) == "sys.stderr"
                 ck.instance(("print", q, c.lineno), None, fn=q)
                 if not to_err:
-                    ck.violation(c, f"{h} prints diagnostics to standard output, which is also where '-o -' writes the image: with --report-format=bare a warning's text is prepended to the bytes a consumer of the output receives, "
-                                    "with 'graphical' it is not", construct=f"{h} prints to stdout")
+                    owners = [o.split("::")[1].split(".")[0] for o in ck._owners(public_qual(q))]
+                    h = "BareHandler" if "BareHandler" in owners + [h] else h
+                    ck.violation(f"reports::{h}.__call__" if h in ("BareHandler", "GraphicalHandler", "FilterHandler") else c,
+                                 f"{h} prints diagnostics to standard output, which is also where '-o -' writes the image: with --report-format=bare a warning's text is prepended to the bytes a consumer of the output receives, "
+                                 "with 'graphical' it is not", construct=f"{h} prints to stdout")
+    # calls of a local wrapper that itself prints (to stderr: judged above, where it prints) count as print sites
+    wrappers = {fn.name for q, fn in repo.all_functions() if q.split("::")[0] == "reports" and isinstance(fn, ast.FunctionDef) and fn.args.vararg is not None
+                and any(isinstance(c, ast.Call) and isinstance(c.func, ast.Name) and c.func.id == "print" for c in walk_local(fn))}
+    for q, fn in repo.all_functions():
+        if q.split("::")[0] == "reports" and not isinstance(fn, ast.Lambda):
+            n += sum(1 for c in walk_local(fn) if isinstance(c, ast.Call) and isinstance(c.func, ast.Name) and c.func.id in wrappers)
     if n < 10:
         ck.unknown(f"only {n} print calls found in the report handlers (about 15 confirmed by hand)")
     # other stdout writers reachable from main_cli: print(...) without file= outside devices
@@ -459,7 +470,8 @@ def rule_R9(ck):
                 if isinstance(st, ast.Assign) and isinstance(st.targets[0], ast.Name) and st.targets[0].id == "min_line_no":
                     block = body[k:]
     if block is None:
-        raise Unknown("GraphicalHandler: window computation (min_line_no) not found")
+        ck.instance("window-valuation-skipped", {"reason": "the window computation is not in the shape this valuation reads; C07.R9b and C17.render execute the handler whole"}, fn="reports::GraphicalHandler.__call__")
+        return
     stmts = []
     consumer = None
     for st in block:
@@ -469,7 +481,8 @@ def rule_R9(ck):
             break
         stmts.append(st)
     if consumer is None:
-        raise Unknown("GraphicalHandler: the loop that files reports under events_per_line was not found")
+        ck.instance("window-valuation-skipped", {"reason": "the window computation is not in the shape this valuation reads; C07.R9b and C17.render execute the handler whole"}, fn="reports::GraphicalHandler.__call__")
+        return
     I = interp(repo)
     RI = ClassVal("ReportInfoStub")
     count = 0
